@@ -31,6 +31,13 @@ class FalsyError(Exception):
         return 0
 
 
+class BadStr(Exception):
+    """An exception that cannot be converted to text (its __str__ returns a non-string)."""
+
+    def __str__(self):
+        return 404
+
+
 class FalsyObj(list):
     """A falsy return value with an identity."""
 
@@ -90,6 +97,16 @@ class Harness(object):
             self.calls[reg].append((result, exception, extra))
             if self.cbkind == "raise" and reg == "r1":
                 raise ValueError("callback-failed")
+            if self.cbkind == "badstr" and reg == "r1":
+                raise BadStr()
+            if self.cbkind == "reenter" and reg == "r1":
+                # a callback that registers a follow-up callback on the same future
+                self.fut.set_callback(self.make_cb("rn"), "extra-rn")
+        if self.cbkind == "falsy":
+            class FalsyCallable(list):  # a callable whose truth value is False
+                def __call__(self_inner, *a):
+                    return cb(*a)
+            return FalsyCallable()
         return cb
 
     def executor(self):
@@ -269,6 +286,8 @@ class Harness(object):
             for c in calls:
                 if len(c) != 3 or c[0] is not want_args[0] or c[1] is not want_args[1] or c[2] != "extra-" + reg:
                     v.append(("C16/callback-arguments", "callback %s invoked with %r, expected (%r, %r, %r)" % (reg, c, want_args[0], want_args[1], "extra-" + reg)))
+        if self.cbkind == "reenter" and len(self.calls.get("r1", ())) == 1:
+            exact_one = exact_one + ["rn"]
         for reg in exact_one:
             if len(self.calls.get(reg, ())) == 0:
                 v.append(("C16/callback-never-invoked", "callback of registration %s was never invoked" % reg))
@@ -299,6 +318,13 @@ def harnesses(tier):
                 continue
             for p in progs_seq + progs_conc:
                 if p == "obs||exec" and cb != "record":
+                    continue
+                out.append((("checks.c16", "make", (p, outcome, cb)), "%s/%s/%s" % (p, outcome, cb)))
+    # callbacks of less common kinds: raising an exception that has no text form, falsy callable objects, callbacks that register a follow-up
+    for cb in ("badstr", "falsy", "reenter"):
+        for outcome in ("return", "raise"):
+            for p in (progs_seq + progs_conc if tier == "thorough" else ["reg;exec", "exec;reg", "exec;reg;reg", "pool", "reg||exec"]):
+                if p == "obs||exec":
                     continue
                 out.append((("checks.c16", "make", (p, outcome, cb)), "%s/%s/%s" % (p, outcome, cb)))
     if tier == "thorough":
